@@ -317,7 +317,22 @@ where
                             }
                         }
                     }
-                    _ => {}
+                    BoolSym::And | BoolSym::Or => {
+                        // NOTE: Both operands must be predicates, otherwise the solver can't
+                        // evaluate them
+                        if !left.is_solvable() {
+                            return Err(crate::error::parse_led_preceding(format!(
+                                "encountered - '{:?}'",
+                                t
+                            )));
+                        }
+                        if !right.is_solvable() {
+                            return Err(crate::error::parse_led_following(format!(
+                                "encountered - '{:?}'",
+                                t
+                            )));
+                        }
+                    }
                 }
                 Ok(Expression::BooleanExpression(
                     Box::new(left),
